@@ -43,8 +43,9 @@ NoMeta == [mode |-> "none", key |-> 0, from |-> 0]
 CallIds == {"hl", "dr", "c1", "c2", "c3"}
 UserCalls == {"c1", "c2", "c3"}
 
-InitState(cfg) ==
-  [ cfg |-> cfg,                 \* [noise, exp, login, K, hist]   hist: keep the arrival history (model checking of C11 only)
+InitStateN(cfg, naddr) ==
+  [ cfg |-> cfg,
+    naddr |-> naddr,             \* addresses of one family the host resolves to: each gets its own TCP pass (60 s each)                 \* [noise, exp, login, K, hist]   hist: keep the arrival history (model checking of C11 only)
     now |-> 0,
     cs |-> "init", ic |-> FALSE, sock |-> "none", tr |-> "none",
     sockset |-> FALSE,           \* connection._socket assigned (the start task took the socket)
@@ -57,7 +58,7 @@ InitState(cfg) ==
     pping |-> FALSE,             \* _send_pending_ping
     tm |-> {},                   \* armed timers [k, at]
     \* operations: pc, wake, outcome
-    st |-> [pc |-> "idle", wake |-> "none", out |-> "idle"],
+    st |-> [pc |-> "idle", wake |-> "none", out |-> "idle", pass |-> 1],
     fi |-> [pc |-> "idle", wake |-> "none", out |-> "idle", login |-> FALSE],
     di |-> [pc |-> "idle", wake |-> "none", out |-> "idle"],
     calls |-> [i \in CallIds |-> NoCall],
@@ -71,6 +72,7 @@ InitState(cfg) ==
     \* outputs of the current callback
     w |-> <<>>, d |-> <<>>, dn |-> <<>> ]
 
+InitState(cfg) == InitStateN(cfg, 1)
 Begin(x) == [x EXCEPT !.w = <<>>, !.d = <<>>, !.dn = <<>>]
 
 CallTimer(id) == CASE id = "hl" -> "call:hl" [] id = "dr" -> "call:dr" [] id = "c1" -> "call:c1"
@@ -193,7 +195,7 @@ FailStart(x, local) ==
   LET y0 == Cleanup(x) IN
   \* a socket that was connected for this attempt is closed even if it was never assigned
   LET y == [y0 EXCEPT !.sock = IF @ = "open" THEN "closed" ELSE @] IN
-  Done([DelTimer(DelTimer(y, "res"), "tcp") EXCEPT !.st = [pc |-> "done", wake |-> "none", out |-> WrapClass(y, local)]],
+  Done([DelTimer(DelTimer(y, "res"), "tcp") EXCEPT !.st = [pc |-> "done", wake |-> "none", out |-> WrapClass(y, local), pass |-> y.st.pass]],
        "start", WrapClass(y, local))
 FailFinish(x, local) ==
   LET y0 == [x EXCEPT !.calls["hl"] = NoCall] IN
@@ -209,7 +211,7 @@ FailFinish(x, local) ==
 UserStart(x0) ==
   LET x == Begin(x0) IN
   IF x.cs # "init" THEN Done(x, "start", "ANYERR")     \* one connect attempt per object
-  ELSE AddTimer([x EXCEPT !.st = [pc |-> "resolve", wake |-> "none", out |-> "pending"]], "res", x.now + TResolve)
+  ELSE AddTimer([x EXCEPT !.st = [pc |-> "resolve", wake |-> "none", out |-> "pending", pass |-> 1]], "res", x.now + TResolve)
 
 EnvResolve(x0, res) ==      \* res: "ok" | error class
   [Begin(x0) EXCEPT !.st.wake = res]
@@ -229,10 +231,13 @@ StartStep(x0) ==
           THEN AddTimer(DelTimer([x EXCEPT !.st.pc = "tcp", !.st.wake = "none"], "res"), "tcp", x.now + TTcp)
           ELSE FailStart(x, x.st.wake)
   ELSE \* tcp
-     IF Due(x, "tcp") THEN FailStart(x, "TimeoutAPIError")
+     \* a pass over the address list failed (error or 60 s): the next address gets its own pass
+     IF (Due(x, "tcp") \/ x.st.wake = "SocketAPIError") /\ x.st.pass < x.naddr
+     THEN AddTimer([x EXCEPT !.st.wake = "none", !.st.pass = @ + 1], "tcp", x.now + TTcp)
+     ELSE IF Due(x, "tcp") THEN FailStart(x, "TimeoutAPIError")
      ELSE IF x.st.wake = "ok"
           THEN Done([DelTimer(x, "tcp") EXCEPT !.sockset = TRUE, !.cs = "opened",
-                          !.st = [pc |-> "done", wake |-> "none", out |-> "ok"]], "start", "ok")
+                          !.st = [pc |-> "done", wake |-> "none", out |-> "ok", pass |-> x.st.pass]], "start", "ok")
           ELSE IF x.st.wake = "okbad" THEN FailStart([x EXCEPT !.sockset = TRUE], "SocketAPIError")   \* an OS error while the socket is set up
           ELSE FailStart(x, x.st.wake)
 StartStepEnabled(x) ==
